@@ -214,7 +214,7 @@ async def episode(loop: vloop.VirtualLoop, ctx, trial: int) -> None:
     import random
 
     rng = random.Random(f"C18/{ctx.seed}/{trial}")  # every episode replays from (seed, trial) alone
-    zones = ["01", "03", "0A"][: rng.choice((2, 3))]
+    zones = rng.choice((["01", "03", "0A"], ["00", "03", "0A"]))[: rng.choice((2, 3))]
     faults = Faults(ctx)
     air = airmod.Air(loop, fault=faults)
     sim = SimCtl(loop, air, rng, zones)
@@ -273,6 +273,20 @@ async def episode(loop: vloop.VirtualLoop, ctx, trial: int) -> None:
         for _ in range(rng.choice((1, 2, 4))):
             loop.call_later(rng.choice((0.01, 0.05, 0.2, 0.6, 2.0)), overhear)
         meta["overheard"] = f"replies to another requester for zone {z}"
+    if "00" in zones and rng.random() < 0.7:
+        # the controller also holds a hot-water schedule (index byte 00, marker 23) and answers another requester
+        # for it while we fetch zone 00 (marker 20): same index byte, same fragment numbers
+        dhw = ref_fragments(gen_schedule(rng, "dhw", "00"))
+        for rep in range(rng.choice((1, 2, 3))):
+            for k, fr in enumerate(dhw):
+                pl = f"00230008{len(fr) // 2:02X}{k + 1:02X}{len(dhw):02X}{fr}"
+                frame = f"RP --- {CTL} 18:111111 --:------ 0404 {len(pl) // 2:03d} {pl}"
+                loop.call_later(rng.choice((0.03, 0.06, 0.1, 0.2, 0.5)) + 0.07 * k + rep * 0.3, air.inject, frame, 0.0, "045", False)
+        meta["overheard_dhw"] = f"{len(dhw)}-fragment hot-water schedule answered to another requester"
+        ctx.count("overheard.dhw_schedule")
+        if not any(z == "00" for z, _, _ in ops):
+            ops[0] = ("00", rng.choice(("get", "get-force")), ops[0][2])
+            meta["ops"] = [f"{op} zone {z}" + (f" (caller timeout {outer}s)" if outer else "") for z, op, outer in ops]
 
     if trial % 5 == 4 and len(zones) >= 2:
         # directed family: our fetch for zone A queues behind a (slowed) transfer for zone B; meanwhile another
